@@ -341,7 +341,7 @@ pub fn run_seq(sc: &SeqScenario) -> Outcome {
     let mut closes = 0usize;
     let mut pruned = false;
     let mut steps = 0usize;
-    while steps < sc.depth && w(|w| w.viol.is_empty()) {
+    while steps < sc.depth && w(|w| w.own_clean()) {
         // enabled operations, benign first
         let mut ops: Vec<(SOp, Cost)> = Vec::new();
         for t in tasks.iter() {
@@ -486,12 +486,12 @@ pub fn run_seq(sc: &SeqScenario) -> Outcome {
         // them must not hide what another property's oracle would report); the
         // history stops after the step
         after_step(&pool, &tasks);
-        if w(|w| w.viol.is_empty()) {
+        if w(|w| w.own_clean()) {
             note_state(fingerprint(&pool, &tasks));
         }
         if fresh_step {
             // one step past the frontier state: report the state reached and end
-            if w(|w| w.viol.is_empty()) {
+            if w(|w| w.own_clean()) {
                 let _new = explorer::bfs_visit(canon(&pool, &tasks, closes));
                 pruned = true;
             }
@@ -500,7 +500,7 @@ pub fn run_seq(sc: &SeqScenario) -> Outcome {
         if let Some(visited) = &sc.reach {
             // replays (tracing on) are never pruned, so violations reproduce
             // states along the replayed prefix are re-visits by construction
-            if w(|w| w.viol.is_empty()) && !explorer::tracing() && explorer::past_prefix() {
+            if w(|w| w.own_clean()) && !explorer::tracing() && explorer::past_prefix() {
                 let key = canon(&pool, &tasks, closes);
                 let mut v = visited.lock().unwrap();
                 match v.get(&key) {
@@ -517,7 +517,7 @@ pub fn run_seq(sc: &SeqScenario) -> Outcome {
             }
         }
     }
-    if sc.reach.is_some() && !pruned && steps >= sc.depth && w(|w| w.viol.is_empty()) {
+    if sc.reach.is_some() && !pruned && steps >= sc.depth && w(|w| w.own_clean()) {
         explorer::flag_cap("reachability horizon reached before the history met a known state: closure not established");
     }
     if pruned {
@@ -549,7 +549,7 @@ pub fn run_seq(sc: &SeqScenario) -> Outcome {
         return Outcome { obs: 0, violations: vec![] };
     }
     // end of history: abandon what is pending, return everything, probe
-    if w(|w| w.viol.is_empty()) {
+    if w(|w| w.own_clean()) {
         for mut t in tasks.drain(..) {
             let who = t.who;
             guarded_as(who, || t.task.cancel());
@@ -568,10 +568,10 @@ pub fn run_seq(sc: &SeqScenario) -> Outcome {
                 }
             }
         }
-        if w(|w| w.viol.is_empty()) {
+        if w(|w| w.own_clean()) {
             after_step(&pool, &[]);
         }
-        if w(|w| w.viol.is_empty()) {
+        if w(|w| w.own_clean()) {
             probe(&pool);
         }
     }
@@ -594,7 +594,7 @@ pub fn run_seq(sc: &SeqScenario) -> Outcome {
         }
         h.finish()
     });
-    if w(|w| w.viol.is_empty()) {
+    if w(|w| w.own_clean()) {
         drop_handle(0, pool);
         w(|w| w.final_ledger(true));
     } else {
